@@ -74,6 +74,11 @@ def running_average(ctx):
     for n_long, w in ([(4097, 4), (5000, 7), (9000, 24)] if ctx.tier == 'quick' else
                       [(4097, 4), (5000, 7), (9000, 24), (4096, 2), (12000, 10), (20000, 25), (6000, 1), (8193, 16)]):
         cases.append(('long-dyadic', gen.dyadic_record(rng, n_long), w, False))
+    # LONG records with a huge dynamic range inside (one sample of 1e17 among samples of order one): a running sum may not be used
+    for n_long, w in ([(30000, 1), (21000, 4)] if ctx.tier == 'quick' else [(30000, 1), (21000, 4), (50000, 3), (25000, 10)]):
+        v = gen.dyadic_record(rng, n_long)
+        v[rng.choice([0, 1, n_long // 2])] = 1e17
+        cases.append(('long-wide-range', v, w, False))
     for kind, arr, w, exact in cases:
         ctx.hist('running_average/' + kind)
         ctx.hist('running_average/dtype=' + str(arr.dtype))
@@ -102,9 +107,17 @@ def running_average(ctx):
             ctx.oracle('C17.f running average: out[i] == mean of the ORIGINAL samples within floor(w/2) positions of i', False, inputs,
                        detail={'non-finite output': np.asarray(out, dtype=float)[:8]})
         elif len(out) == len(snap):
-            sc = max((abs(x) for x in want), default=Fraction(0))
-            tol = Fraction(0) if exact else Fraction(1, 10**12) * sc
-            bad = [i for i in range(len(want)) if abs(fr(float(out[i])) - want[i]) > tol]
+            # rounding budget per sample: 1e-12 of the largest |sample| inside THAT sample's window (not of the whole record: a record
+            # with one huge sample must still be averaged correctly everywhere else)
+            absx = np.abs(np.asarray(snap, dtype=float))
+            h = w // 2
+            if exact:
+                tols = [Fraction(0)] * len(want)
+            elif len(absx) * (2 * h + 1) <= 2000000:
+                tols = [Fraction(1, 10**12) * fr(float(absx[max(0, i - h):i + h + 1].max())) for i in range(len(want))]
+            else:
+                tols = [Fraction(1, 10**12) * fr(float(absx.max()))] * len(want)
+            bad = [i for i in range(len(want)) if abs(fr(float(out[i])) - want[i]) > tols[i]]
             ctx.oracle('C17.f running average: out[i] == mean of the ORIGINAL samples within floor(w/2) positions of i', not bad, inputs,
                        detail=None if not bad else {'index': bad[0], 'got': float(out[bad[0]]), 'want': float(want[bad[0]])})
         ctx.oracle('C17.f running average leaves the caller\'s array untouched', np.array_equal(arr, snap), inputs)
@@ -270,6 +283,34 @@ def butter_real(ctx):
                        r_f[0] == 'ok' and r_i[0] == 'ok' and np.array_equal(r_i[1], r_f[1]),
                        {'values': 'sin(2*pi*2*t), n=4000', 'dt': 0.01, 'cut_off': [c for c in cut_i], 'container': cont + ' of ints'},
                        detail=r_i if r_i[0] != 'ok' else None, facts={'container': cont})
+    # consecutive calls whose corners are NEAR each other (relative 1e-7 ... 4e-2), also at very long-period corners (normalised cut-off
+    # ~1e-5): every call uses the filter it asked for -- compared with scipy's butter + filtfilt on the same record (1e-9 of the peak)
+    from scipy.signal import filtfilt
+    for it in range(8 if ctx.tier == 'quick' else 60):
+        dtn = rng.choice([0.001, 0.01])
+        nn = rng.choice([3000, 6000])
+        tt = np.arange(nn) * dtn
+        xr = 0.3 * tt / tt[-1] + np.sin(2 * math.pi * tt / (tt[-1] * rng.choice([0.7, 1.5, 3.0]))) + 0.2 * gen.noise_record(rng, nn)
+        ftype = rng.choice(['high', 'low'])
+        order = rng.choice([1, 2, 4])
+        f0 = rng.choice([0.0098, 0.05, 1.0]) if ftype == 'high' else rng.choice([5.0, 20.0]) * (0.01 / dtn) * 0.5
+        rel = rng.choice([1e-7, 1e-5, 1e-3, 4e-2])
+        for fc in (f0, f0 * (1 + rel), f0):
+            co = [fc, None] if ftype == 'high' else [None, fc]
+            sg = eqsig.Signal(xr.copy(), dtn)
+            r = call_impl(lambda: (sg.butter_pass(co, filter_order=order), np.array(sg.values))[1])
+            wr = call_impl(lambda: filtfilt(*butter(order, fc / (0.5 / dtn), btype=ftype), xr))
+            if wr[0] != 'ok':
+                ctx.hist('butter_pass/near-equal corners: scipy itself rejects this design (%s)' % wr[1])
+                continue
+            want = wr[1]
+            okn = r[0] == 'ok' and float(np.max(np.abs(r[1] - want))) <= 1e-9 * float(np.max(np.abs(xr)))
+            ctx.hist('butter_pass/near-equal corners in consecutive calls')
+            ctx.count_case(('near', it, fc, ftype, order, dtn), True)
+            ctx.oracle('C17.c every call filters with the corner it was given (consecutive calls with corners that differ by a relative 1e-7 ... 4e-2): '
+                       'result == scipy butter + filtfilt for that corner (1e-9 of the peak)', okn,
+                       {'record': 'trend + slow sine + noise (seeded)', 'n': nn, 'dt': dtn, 'cut_off': co, 'filter_order': order, 'previous_corner_relative_offset': rel},
+                       detail=None if okn else (r if r[0] != 'ok' else {'max_deviation': float(np.max(np.abs(r[1] - want))), 'peak': float(np.max(np.abs(xr)))}))
     n_cases = 200 if ctx.tier == 'quick' else 1500
     prev = None
     for i in range(n_cases):
